@@ -31,8 +31,9 @@ PAYLOADS = [
     "\\", "\\'", "\\' OR 1=1 --", "\\\\'", "%", "_", "%%", "__", "\\%", "\\_", "%' --", "a%b_c", "/*", "*/", "/* x */",
     "--", "-- x", ";", "; SELECT 1", "\"", "\"\"", "\" OR \"\"=\"", "\x00", "\x00'", "’", "ʼ", "’ OR 1=1", "`",
     "$$", "'||'", "' || (SELECT 1) || '", "') OR ('1'='1", "%' ESCAPE '\\",
+    "＇ OR 1=1 --", "a＇b", "＼＇", "％＿",
 ]
-ADV_ALPHABET = "ab'\"\\%_;-/* \x00’ʼ()|=1\n"
+ADV_ALPHABET = "ab'\"\\%_;-/* \x00’ʼ()|=1\n＇＂＼％＿；﹨﹣＊／"   # incl. compatibility forms that NFKC-normalise to metacharacters
 
 
 def adv_strings():
